@@ -37,18 +37,18 @@ def gen_case(rng, cfg):
     ops = []
     w = cfg["weights"]
     kinds = list(w)
-    pool = cells            # the cells operations aim at: the program's, and (histories with copies) the copies made
+    aims = cells            # the cells operations aim at: the program's, and (histories with copies) the copies made
     n_refs = g.n_rn + g.n_ra + (g.n_glob if g.glob_p else 0)
     for _ in range(rng.randint(cfg.get("min_ops", 8), cfg.get("max_ops", 16))):
         k = rng.choices(kinds, [w[x] for x in kinds])[0]
-        c = rng.choice(pool)
+        c = rng.choice(aims)
         if k == "copycell":
             # Cells.copy into either space under a new name; the copy is then a cells like any other
-            src = rng.choice([x for x in pool if exists.get(x["id"], True)] or pool)
+            src = rng.choice([x for x in aims if exists.get(x["id"], True)] or aims)
             dst = 50 + sum(1 for o in ops if o[0] == "copycell")
             sp = rng.randrange(2)
             ops.append(["copycell", str(src["id"]), str(sp), str(dst)])
-            pool = pool + [dict(src, id=dst, space=sp)]
+            aims = aims + [dict(src, id=dst, space=sp)]
             exists[dst] = True
             continue
         if k == "copyspace":
@@ -56,9 +56,9 @@ def gen_case(rng, cfg):
                 k = "eval"
             else:
                 ops.append(["copyspace"])
-                new = [dict(x, id=execworld.COPY_BASE + x["id"], space=3) for x in pool
+                new = [dict(x, id=execworld.COPY_BASE + x["id"], space=3) for x in aims
                        if int(x.get("space", 0)) == 1 and exists.get(x["id"], True)]
-                pool = pool + new
+                aims = aims + new
                 for x in new:
                     exists[x["id"]] = True
                 continue
